@@ -266,7 +266,7 @@ fn emit_fn(
     vis: &syn::Visibility,
     sig: &syn::Signature,
     block: &syn::Block,
-    self_err: Option<syn::Type>,
+    self_err: Option<Vec<(String, syn::Type)>>,
     rel: &str,
     cfg: &Config,
     contract: Option<&ItemContract>,
@@ -391,6 +391,8 @@ fn emit_fn(
     let inputs = &sig.inputs;
     let constness = &sig.constness;
     let unsafety = &sig.unsafety;
+    let _ = vis;
+    let vis: syn::Visibility = syn::parse_quote!(pub);
     let head = quote!(#vis #constness #unsafety fn #ident #generics (#inputs));
     pr.stream(head, &markers, false);
     if let syn::ReturnType::Type(_, ty) = &sig.output {
@@ -494,6 +496,11 @@ pub fn emit_group(
                 }
                 Item::Struct(mut s) => {
                     rules::filter_attrs(&mut s.attrs, cfg, false, fired);
+                    // R-vis: everything extracted is `pub` (one crate; visibility does not affect bodies)
+                    s.vis = syn::parse_quote!(pub);
+                    for fld in s.fields.iter_mut() {
+                        fld.vis = syn::parse_quote!(pub);
+                    }
                     for fld in s.fields.iter_mut() {
                         fld.attrs.retain(|a| !a.path().is_ident("doc") && !a.path().is_ident("serde") && !a.path().is_ident("cfg_attr") && !a.path().is_ident("deb822"));
                     }
@@ -625,13 +632,13 @@ pub fn emit_group(
             pr.stream(head, &Markers::default(), false);
             pr.word("{", false);
             pr.newline();
-            let mut self_err: Option<syn::Type> = None;
+            let mut self_err: Option<Vec<(String, syn::Type)>> = None;
             for t in &assoc_types {
                 if keep_trait {
                     pr.stream(t.to_token_stream(), &Markers::default(), true);
                     pr.newline();
-                } else if t.ident == "Err" || t.ident == "Error" {
-                    self_err = Some(t.ty.clone());
+                } else {
+                    self_err.get_or_insert_with(Vec::new).push((t.ident.to_string(), t.ty.clone()));
                 }
             }
             for (sel, m) in methods {
